@@ -476,6 +476,12 @@ example : (dbTable .openRO false .get).mutates = false ∧ (dbTable .switchedRO 
     ∧ (dbTable .switchedRO false .close).mutates = true
     ∧ (dbTable .openRW false .put).mutates = true := by decide
 
+/-- The "closed" row of the method table rests on every public `*DB` method checking `db.ok()` before it touches
+anything (the extractor lists the exported methods of `*DB` from the AST on every run and requires the check in
+the first statement; `Put`/`Delete` go through `putRec`, `Close` flips the flag itself): a method added or rewritten
+without the check turns the fact false. -/
+theorem code_methods_guarded : Gen.lifeDBMethodsGuarded = true := by decide
+
 end GoLevel.C18
 
 namespace GoLevel
@@ -486,5 +492,6 @@ def C18.theorems : List String :=
    "GoLevel.C18.ro_rejects_writes", "GoLevel.C18.ro_no_mutation",
    "GoLevel.C18.setReadOnly_enters", "GoLevel.C18.setReadOnly_quiesces", "GoLevel.C18.code_setReadOnly_quiesces",
    "GoLevel.C18.drain_settles", "GoLevel.C18.setReadOnly_quiesces_partial", "GoLevel.C18.drain_completes",
-   "GoLevel.C18.setReadOnly_quiesces_refuted_without_parking", "GoLevel.C18.table_sound"]
+   "GoLevel.C18.setReadOnly_quiesces_refuted_without_parking", "GoLevel.C18.table_sound",
+   "GoLevel.C18.code_methods_guarded"]
 end GoLevel
